@@ -178,27 +178,30 @@ type Exchange struct {
 	Up   *Link // client -> handler (request body)
 	Down *Link // handler -> client (response body)
 
-	mu          sync.Mutex
-	ReqHeader   http.Header // as the handler sees it
-	Method      string
-	URL         string
-	committed   bool
-	Status      int
-	RespHeader  http.Header // snapshot at commit, as the client sees it
-	live        http.Header // the handler's live map
-	Trailer     http.Header // computed at handler return
-	HandlerDone bool
-	Panic       any
-	PanicStack  string
-	Writes      int
-	FailedWrite bool
-	serverCtx   context.Context
-	cancelSrv   context.CancelFunc
-	clientReq   *http.Request
-	resp        *http.Response
-	abortErr    error
-	postSeen    int
-	closedReq   bool
+	mu              sync.Mutex
+	ReqHeader       http.Header // as the handler sees it
+	Method          string
+	URL             string
+	committed       bool
+	Status          int
+	RespHeader      http.Header // snapshot at commit, as the client sees it
+	live            http.Header // the handler's live map
+	Trailer         http.Header // computed at handler return
+	HandlerDone     bool
+	Panic           any
+	PanicStack      string
+	Writes          int
+	FailedWrite     bool
+	serverCtx       context.Context
+	cancelSrv       context.CancelFunc
+	clientReq       *http.Request
+	resp            *http.Response
+	abortErr        error
+	postSeen        int
+	closedReq       bool
+	ClosedReqStep   int // scheduler step at which the transport closed the request body (-1: never)
+	RespReturned    bool
+	HandlerDoneStep int
 
 	// norace mirrors
 	commitFlag bool
@@ -301,6 +304,7 @@ func (n *Net) Do(req *http.Request) (*http.Response, error) {
 	}
 	resp.Body = &respBody{e: e, resp: resp}
 	e.resp = resp
+	e.RespReturned = true
 	return resp, nil
 }
 
@@ -311,7 +315,7 @@ func closeBody(req *http.Request) {
 }
 
 func (n *Net) newExchange(c *Call, req *http.Request) *Exchange {
-	e := &Exchange{Call: c, clientReq: req, Method: req.Method, URL: req.URL.String()}
+	e := &Exchange{Call: c, clientReq: req, Method: req.Method, URL: req.URL.String(), ClosedReqStep: -1, HandlerDoneStep: -1}
 	e.dp.e = e
 	e.wp.e = e
 	e.Up = NewLink(n.S, c.ID+"/up", c.K.UpWindow)
@@ -351,6 +355,7 @@ func (e *Exchange) abortLocked(err error) {
 	e.cancelSrv()
 	if !e.closedReq {
 		e.closedReq = true
+		e.ClosedReqStep = e.Call.S.StepNow()
 		closeBody(e.clientReq)
 	}
 	e.setOverFlag()
@@ -435,6 +440,7 @@ func (e *Exchange) closeReq() {
 	e.mu.Lock()
 	if !e.closedReq {
 		e.closedReq = true
+		e.ClosedReqStep = e.Call.S.StepNow()
 		closeBody(e.clientReq)
 	}
 	e.mu.Unlock()
@@ -470,6 +476,7 @@ func (e *Exchange) finishHandler() {
 	e.mu.Lock()
 	defer e.mu.Unlock()
 	e.HandlerDone = true
+	e.HandlerDoneStep = e.Call.S.StepNow()
 	if e.Panic != nil {
 		// net/http aborts the response: RST_STREAM(INTERNAL_ERROR) on HTTP/2,
 		// connection close on HTTP/1.1.
@@ -492,6 +499,7 @@ func (e *Exchange) finishHandler() {
 		e.cancelSrv()
 		if !e.closedReq {
 			e.closedReq = true
+			e.ClosedReqStep = e.Call.S.StepNow()
 			closeBody(e.clientReq)
 		}
 		e.setOverFlag()
@@ -523,6 +531,7 @@ func (e *Exchange) finishHandler() {
 	// What happens to a request body the handler did not finish reading.
 	if e.Call.K.HTTP2 && !e.Call.K.Lazy && e.Call.K.PostAccept <= 0 && !e.closedReq {
 		e.closedReq = true
+		e.ClosedReqStep = e.Call.S.StepNow()
 		closeBody(e.clientReq)
 	}
 	e.setOverFlag()
@@ -640,6 +649,7 @@ func (b *respBody) Close() error {
 		e.abortLocked(errors.New("response body closed"))
 	} else if !e.closedReq {
 		e.closedReq = true
+		e.ClosedReqStep = e.Call.S.StepNow()
 		closeBody(e.clientReq)
 	}
 	return nil
